@@ -723,6 +723,9 @@ def rule_predicates(check):
     prog = check.prog
     from ..prov import return_exprs
 
+    if check.prop != "C04":
+        # the receiver predicates belong to C04; C12 shares only the status ones
+        return _status_predicates(check, R)
     f = prog.fn("FunctionPrototypeTransform::is_call_or_apply")
     vals = {}
     for c in ("CALL_METHOD_NAME", "APPLY_METHOD_NAME", "PROTOTYPE"):
@@ -780,6 +783,12 @@ def rule_predicates(check):
                         ok = sym and ((cs and vals.get(cs[0].split("::")[-1]) == "prototype") or lit == ["prototype"])
     check.expect(ok, R, R + "/member_prop_is_prototype", hir.loc(g.rec), "member_prop_is_prototype <=> prop is the identifier `prototype`", "member_prop_is_prototype is not `prop.is_ident() && prop.sym == \"prototype\"`")
     from .. import gate
+    _status_predicates(check, R)
+
+
+def _status_predicates(check, R):
+    prog = check.prog
+    from ..prov import return_exprs
 
     from .. import statusrules as S
 
@@ -825,6 +834,7 @@ def run(check):
     check.guarded("BLOCK-DRIVER", rule_block_driver)
     check.guarded("ARROW-BLOCK", rule_arrow_block)
     check.guarded("RECEIVER-TABLE", rule_receiver_table)
+    check.guarded("SNAPSHOT-ORDER", __import__('iast.statusrules', fromlist=['x']).rule_snapshot_order)
     return {
         "explanation": "Static traversal analysis over the typed HIR of the rewriter: all structural paths of every visitor override are enumerated and each must visit every expression-bearing child of its node (slots computed from the compiled swc_ecma_ast ADT graph) unless the path's conditions match a documented exclusion; plus dispatch/gating of the five transforms, block driver, arrow-body normalisation and receiver table.",
         "assumptions": [
